@@ -83,6 +83,182 @@ fn pks_coq(v: &[DbPartitionKey]) -> String {
     coq_list(v.iter().map(pk_coq))
 }
 
+/// the class of the known finding, computed from the keys the history writes: some node key is a proper
+/// prefix of another node key, or inside one partition some sort key is a proper prefix of another
+fn plan_prefix_related(commits: &[DatabaseUpdates]) -> bool {
+    let mut nodes: std::collections::BTreeSet<Vec<u8>> = Default::default();
+    let mut per_part: std::collections::BTreeMap<(Vec<u8>, u8), std::collections::BTreeSet<Vec<u8>>> = Default::default();
+    for c in commits {
+        for (nk, nu) in &c.node_updates {
+            nodes.insert(nk.clone());
+            for (pn, pu) in &nu.partition_updates {
+                let e = per_part.entry((nk.clone(), *pn)).or_default();
+                match pu {
+                    PartitionDatabaseUpdates::Delta { substate_updates } => e.extend(substate_updates.keys().map(|k| k.0.clone())),
+                    PartitionDatabaseUpdates::Reset { new_substate_values } => e.extend(new_substate_values.keys().map(|k| k.0.clone())),
+                }
+            }
+        }
+    }
+    let as_vec = |s: &std::collections::BTreeSet<Vec<u8>>| s.iter().cloned().collect::<Vec<_>>();
+    is_prefix_related(&as_vec(&nodes)) || per_part.values().any(|s| is_prefix_related(&as_vec(s)))
+}
+
+struct Plan {
+    u: Universe,
+    commits: Vec<DatabaseUpdates>,
+    oversize: bool,
+    classes: Vec<String>,
+    obs_seed: u64,
+}
+
+fn random_plan(rng: &mut Rng, i: usize) -> Plan {
+    let oversize = i % 20 == 19;
+    let want_prefix_free = i % 4 != 3;
+    let u = universe(rng, oversize, want_prefix_free);
+    let reset_pct = *rng.pick(&[15u64, 30, 50]);
+    let ncommits = rng.range(2, 10);
+    let mut replay = Replay::default();
+    let mut commits = Vec::new();
+    for _ in 0..ncommits {
+        let mut c = gen_commit(rng, &u, reset_pct);
+        if rng.chance(1, 4) && !replay.parts.is_empty() {
+            // targeted: delete every substate of an existing partition one by one
+            let keys: Vec<_> = replay.parts.keys().cloned().collect();
+            let (nk, pn) = rng.pick(&keys).clone();
+            let dels: IndexMap<DbSortKey, DatabaseUpdate> =
+                replay.parts[&(nk.clone(), pn)].keys().map(|k| (DbSortKey(k.clone()), DatabaseUpdate::Delete)).collect();
+            c = DatabaseUpdates::default();
+            c.node_updates.entry(nk).or_default().partition_updates.insert(pn, PartitionDatabaseUpdates::Delta { substate_updates: dels });
+        }
+        replay.commit(&c);
+        commits.push(c);
+    }
+    Plan { u, commits, oversize, classes: vec![], obs_seed: rng.next_u64() }
+}
+
+// ---- deterministic boundary family ---------------------------------------------------------------
+fn sets(es: &[(Vec<u8>, Option<Vec<u8>>)]) -> PartitionDatabaseUpdates {
+    let mut m = IndexMap::new();
+    for (key, v) in es {
+        m.insert(DbSortKey(key.clone()), match v { Some(v) => DatabaseUpdate::Set(v.clone()), None => DatabaseUpdate::Delete });
+    }
+    PartitionDatabaseUpdates::Delta { substate_updates: m }
+}
+fn reset(es: &[(Vec<u8>, Vec<u8>)]) -> PartitionDatabaseUpdates {
+    let mut m = IndexMap::new();
+    for (key, v) in es {
+        m.insert(DbSortKey(key.clone()), v.clone());
+    }
+    PartitionDatabaseUpdates::Reset { new_substate_values: m }
+}
+fn commit_of(parts: Vec<(Vec<u8>, u8, PartitionDatabaseUpdates)>) -> DatabaseUpdates {
+    let mut du = DatabaseUpdates::default();
+    for (nk, pn, pu) in parts {
+        du.node_updates.entry(nk).or_default().partition_updates.insert(pn, pu);
+    }
+    du
+}
+/// universe = exactly the node keys / partition numbers / sort keys occurring in the commits
+fn universe_of(commits: &[DatabaseUpdates], extra_sort_keys: &[Vec<u8>]) -> Universe {
+    let mut nodes = std::collections::BTreeSet::new();
+    let mut parts = std::collections::BTreeSet::new();
+    let mut sorts: std::collections::BTreeSet<Vec<u8>> = extra_sort_keys.iter().cloned().collect();
+    for c in commits {
+        for (nk, nu) in &c.node_updates {
+            nodes.insert(nk.clone());
+            for (pn, pu) in &nu.partition_updates {
+                parts.insert(*pn);
+                match pu {
+                    PartitionDatabaseUpdates::Delta { substate_updates } => sorts.extend(substate_updates.keys().map(|k| k.0.clone())),
+                    PartitionDatabaseUpdates::Reset { new_substate_values } => sorts.extend(new_substate_values.keys().map(|k| k.0.clone())),
+                }
+            }
+        }
+    }
+    Universe { node_keys: nodes.into_iter().collect(), parts: parts.into_iter().collect(), sort_keys: sorts.into_iter().collect() }
+}
+
+fn boundary_family() -> Vec<Plan> {
+    let mut v: Vec<Plan> = Vec::new();
+    let top = vec![255u8; RESET_BOUND - 1]; // the largest sort key within the size limit
+    let mut push = |class: &str, commits: Vec<DatabaseUpdates>, extra: &[Vec<u8>], oversize: bool| {
+        let u = universe_of(&commits, extra);
+        let seed = 0xB0DA_0000u64 + v.len() as u64;
+        v.push(Plan { u, commits, oversize, classes: vec![class.to_string()], obs_seed: seed });
+    };
+    let n1 = vec![1u8];
+    let n2 = vec![2u8, 3];
+    // -- partition reset: both ends of the delete range, neighbours on both sides, for boundary partition numbers.
+    //    Sort keys inside one partition are kept prefix-free so that all three stores take part.
+    for (pn, lo, hi) in [(1u8, Some(0u8), Some(2u8)), (0, None, Some(1)), (255, Some(254), None), (254, Some(253), Some(255))] {
+        for (variant, target_keys) in [
+            ("top_key", vec![vec![0u8], vec![1, 0], top.clone()]),   // 2047 x 0xFF: just below the exclusive upper end
+            ("empty_key_only", vec![vec![]]),                        // the inclusive lower end
+            ("top_key_only", vec![top.clone()]),
+        ] {
+            for (rname, newvals) in [("to_empty", vec![]), ("to_other", vec![(vec![1u8, 0], vec![77u8])])] {
+                let mut populate = vec![(n1.clone(), pn, sets(&target_keys.iter().map(|k| (k.clone(), Some(vec![1u8]))).collect::<Vec<_>>()))];
+                if let Some(l) = lo {
+                    populate.push((n1.clone(), l, sets(&[(top.clone(), Some(vec![2]))])));   // last possible key of the previous partition
+                }
+                if let Some(h) = hi {
+                    populate.push((n1.clone(), h, sets(&[(vec![], Some(vec![3]))])));        // first possible key of the next partition
+                }
+                populate.push((n2.clone(), pn, sets(&[(vec![0], Some(vec![4]))])));          // same partition number under another node
+                let commits = vec![commit_of(populate), commit_of(vec![(n1.clone(), pn, reset(&newvals))])];
+                push(&format!("bf_reset_{}_{}_pn{}", variant, rname, pn), commits, &[vec![0], vec![255]], false);
+            }
+        }
+    }
+    // -- at and above the reset bound (outside the size limits; compared with the model only)
+    push("bf_reset_oversize_key", vec![
+        commit_of(vec![(n1.clone(), 7, sets(&[(vec![255u8; RESET_BOUND], Some(vec![1])), (vec![5], Some(vec![2]))]))]),
+        commit_of(vec![(n1.clone(), 7, reset(&[]))]),
+    ], &[], true);
+    // -- node key lengths around the length-prefix byte boundaries (be32: 255 | 256 | 257, 65536), prefix-free
+    let long_nodes: Vec<Vec<u8>> = vec![vec![5u8; 255], vec![6; 256], vec![7; 257], vec![1], vec![2, 3]];
+    push("bf_node_key_len_255_256_257", vec![
+        commit_of(long_nodes.iter().map(|n| (n.clone(), 0u8, sets(&[(vec![9], Some(vec![n.len() as u8])), (vec![8, 8], Some(vec![0]))]))).collect()),
+        commit_of(vec![(long_nodes[1].clone(), 0, reset(&[(vec![9], vec![1])])), (long_nodes[0].clone(), 0, sets(&[(vec![9], None), (vec![8, 8], None)]))]),
+    ], &[], false);
+    push("bf_node_key_len_65536", vec![
+        commit_of(vec![(vec![8u8; 65536], 3, sets(&[(vec![1], Some(vec![1]))])), (vec![9u8; 65535], 3, sets(&[(vec![1], Some(vec![2]))]))]),
+        commit_of(vec![(vec![8u8; 65536], 3, reset(&[]))]),
+    ], &[], false);
+    // -- keys that collide if the length prefix / partition byte were dropped or misplaced (prefix-related node keys:
+    //    the Merkle store may panic = known class; the plain RocksDB store is still compared)
+    push("bf_layout_collision_shapes", vec![
+        commit_of(vec![(vec![1], 2, sets(&[(vec![3, 9], Some(vec![1]))])), (vec![1, 2], 3, sets(&[(vec![9], Some(vec![2]))])),
+                       (vec![], 1, sets(&[(vec![2, 3, 9], Some(vec![3]))])), (vec![1, 2, 3], 9, sets(&[(vec![], Some(vec![4]))]))]),
+        commit_of(vec![(vec![1], 2, reset(&[]))]),
+        commit_of(vec![(vec![1, 2], 3, sets(&[(vec![9], None)]))]),
+    ], &[], false);
+    // -- delta shapes: new, overwrite, delete present, delete absent, delete last substate, empty delta,
+    //    reset of an absent partition (empty and non-empty), partition set after each
+    push("bf_delta_and_partition_lifecycle", vec![
+        commit_of(vec![(n1.clone(), 0, sets(&[(vec![1], Some(vec![1]))])), (n1.clone(), 1, sets(&[(vec![1], None)])), (n2.clone(), 0, sets(&[]))]),
+        commit_of(vec![(n1.clone(), 0, sets(&[(vec![1], Some(vec![2])), (vec![2], Some(vec![]))])), (n2.clone(), 5, reset(&[]))]),
+        commit_of(vec![(n1.clone(), 0, sets(&[(vec![1], None), (vec![3], None)]))]),
+        commit_of(vec![(n1.clone(), 0, sets(&[(vec![2], None)])), (n2.clone(), 5, reset(&[(vec![4], vec![4]), (vec![3], vec![3])]))]),
+        commit_of(vec![(n2.clone(), 5, sets(&[(vec![3], None), (vec![4], None)]))]),
+    ], &[vec![0], vec![5]], false);
+    // -- listings: several partitions of one node and of the next node, cursors on first / last / beyond / before
+    push("bf_listing_partition_edges", vec![
+        commit_of(vec![
+            (n1.clone(), 0, sets(&[(vec![10], Some(vec![1])), (vec![20], Some(vec![2])), (vec![30], Some(vec![3]))])),
+            (n1.clone(), 1, sets(&[(vec![0], Some(vec![4]))])),
+            (n1.clone(), 255, sets(&[(vec![255], Some(vec![5]))])),
+            (n2.clone(), 0, sets(&[(vec![0], Some(vec![6]))])),
+        ]),
+    ], &[vec![9], vec![15], vec![31], vec![]], false);
+    // -- single store entry, and empty history
+    push("bf_single_entry", vec![commit_of(vec![(n1.clone(), 0, sets(&[(vec![1], Some(vec![1]))]))])], &[], false);
+    push("bf_no_effect_commits", vec![commit_of(vec![(n1.clone(), 0, sets(&[(vec![1], None)])), (n1.clone(), 1, reset(&[]))])], &[], false);
+    drop(push);
+    v
+}
+
 fn main() {
     let args = Args::parse();
     let mut report = Report::new(
@@ -98,16 +274,25 @@ fn main() {
     let dirs_root = args.out.join("rocks_tmp");
     let _ = std::fs::remove_dir_all(&dirs_root);
     std::fs::create_dir_all(&dirs_root).unwrap();
-    for i in 0..args.cases {
-        let mut rng = root.fork(i as u64);
-        let oversize = i % 20 == 19;
-        let want_prefix_free = i % 4 != 3;
-        let u = universe(&mut rng, oversize, want_prefix_free);
+    let mut plans = boundary_family();
+    let n_family = plans.len();
+    for j in 0..args.cases {
+        let mut rng = root.fork(j as u64);
+        plans.push(random_plan(&mut rng, j));
+    }
+    for (i, plan) in plans.into_iter().enumerate() {
+        for c in &plan.classes {
+            report.count(c);
+        }
+        let mut rng = Rng::new(plan.obs_seed);
+        let oversize = plan.oversize;
+        let u = &plan.u;
         // class of the known finding: the Merkle store panics when keys of one tree are prefix-related
-        let prefix_related = is_prefix_related(&u.node_keys) || is_prefix_related(&u.sort_keys);
-        report.count(if prefix_related { "cases_with_prefix_related_keys" } else { "cases_with_prefix_free_keys" });
+        let prefix_related = plan_prefix_related(&plan.commits);
+        if i >= n_family {
+            report.count(if prefix_related { "cases_with_prefix_related_keys" } else { "cases_with_prefix_free_keys" });
+        }
         let mut merkle_alive = true;
-        let reset_pct = *rng.pick(&[15u64, 30, 50]);
         let d1 = dirs_root.join(format!("plain_{}", i));
         let d2 = dirs_root.join(format!("merkle_{}", i));
         let mut mem = InMemorySubstateDatabase::standard();
@@ -130,7 +315,6 @@ fn main() {
         let mut n_obs = 0u64;
         let mut n_nonempty = 0u64;
         let mut diverged_oversize = false;
-        let ncommits = rng.range(2, 10);
         let mut observe = |mem: &InMemorySubstateDatabase,
                            rocks: &RocksdbSubstateStore,
                            merkle: &RocksDBWithMerkleTreeSubstateStore,
@@ -205,17 +389,8 @@ fn main() {
             }
             ops.push(format!("OParts {} {}", pks_coq(&m), coq_option(r.ok().map(|x| pks_coq(&x)))));
         };
-        for _ in 0..ncommits {
-            let mut c = gen_commit(&mut rng, &u, reset_pct);
-            if rng.chance(1, 4) && !replay.parts.is_empty() {
-                // targeted: delete every substate of an existing partition one by one
-                let keys: Vec<_> = replay.parts.keys().cloned().collect();
-                let (nk, pn) = rng.pick(&keys).clone();
-                let dels: IndexMap<DbSortKey, DatabaseUpdate> =
-                    replay.parts[&(nk.clone(), pn)].keys().map(|k| (DbSortKey(k.clone()), DatabaseUpdate::Delete)).collect();
-                c = DatabaseUpdates::default();
-                c.node_updates.entry(nk).or_default().partition_updates.insert(pn, PartitionDatabaseUpdates::Delta { substate_updates: dels });
-            }
+        for c in &plan.commits {
+            let c = c.clone();
             // statistics against the replay state before the commit
             for (nk, nu) in &c.node_updates {
                 for (pn, pu) in &nu.partition_updates {
@@ -303,6 +478,17 @@ fn main() {
     report.floor("commits", n);
     report.floor("merkle_commits_ok", n);
     report.floor("cases_with_prefix_free_keys", n / 2);
+    for pn in [0u8, 1, 254, 255] {
+        for variant in ["top_key", "empty_key_only", "top_key_only"] {
+            for r in ["to_empty", "to_other"] {
+                report.floor(&format!("bf_reset_{}_{}_pn{}", variant, r, pn), 1);
+            }
+        }
+    }
+    for c in ["bf_reset_oversize_key", "bf_node_key_len_255_256_257", "bf_node_key_len_65536", "bf_layout_collision_shapes",
+              "bf_delta_and_partition_lifecycle", "bf_listing_partition_edges", "bf_single_entry", "bf_no_effect_commits"] {
+        report.floor(c, 1);
+    }
     if !args.oracle_only {
         cw.write(&args.out, args.shards).unwrap();
     }
